@@ -652,6 +652,7 @@ def instantiate(it, cls, args, kwargs, node):
                     it.raise_(type(e), *e.args, node=node)
             raise Unsupported('symbolic enum construction')
         obj = SymObj(cls, {})
+        obj.complete = True
         if dataclasses.is_dataclass(cls) and '__init__' in cls.__dict__ and \
                 getattr(cls.__dict__['__init__'], '__qualname__', '').endswith('__init__') and \
                 not _has_source(cls.__dict__['__init__']):
